@@ -92,7 +92,12 @@ theorem nameInlinedSchemas_nf (fc : Facts) (x : Ext) (o : Opts) (s : St) (ops : 
   dsimp only
   refine Eq.trans (bind_of_ok _ (foldlM_idle _ s _ ?_)) ?_
   · intro key hk
-    have hidle := List.all_eq_true.1 h key hk
+    have h' : (SortRef.depthFirst ((Index.mapOf (Index.schemas s.idx)).map (·.1))).all
+        (nameStepIdle fc x s.doc (schemaEntries s.idx) ops) = true := by
+      unfold nfNaming at h
+      rw [hops] at h
+      exact h
+    have hidle := List.all_eq_true.1 h' key hk
     unfold nameStepIdle at hidle
     split
     · rfl
@@ -106,8 +111,23 @@ theorem nameInlinedSchemas_nf (fc : Facts) (x : Ext) (o : Opts) (s : St) (ops : 
         split at hidle
         · rename_i fl hfl
           rw [hfl, ok_bind]
-          have : Classify.isComplex fl = false := by simpa using hidle
-          simp [this]
+          rcases Bool.or_eq_true_iff.1 hidle with hnc | hnames
+          · have : Classify.isComplex fl = false := by simpa using hnc
+            simp [this]
+          · split
+            · rename_i hcx
+              split at hnames
+              · rename_i names hn
+                unfold nameSchema
+                dsimp only
+                rw [hn, ok_bind]
+                exact foldlM_idle _ s _ (by
+                  intro name hname
+                  have := List.all_eq_true.1 hnames name hname
+                  simp only [decide_eq_true_eq] at this
+                  simp [this])
+              · cases hnames
+            · rfl
         · cases hidle
   · simp only [Pure.pure]
     rw [reload_eq_self fc s hi, syncNewRefs_eq_self s hc]
